@@ -318,7 +318,7 @@ def main(tier):
     ev.assumptions = ["the compatibility table is deliberately three-valued: pairs the documentation does not settle (bool<->number, reference-held objects requested as "
                       "shared_ptr, null shared_ptr, numbers into mutable reference parameters of another arithmetic type, boxed_cast across arithmetic types) carry no claim",
                       "catalogue functions never throw themselves (that is C10's subject)"]
-    n = 12000 if tier == "quick" else 400000
+    n = 12000 if tier == "quick" else 150000
     failures = hyp.run("c06", ev, tier, n)
     confirmed = hyp.confirm("c06", failures, PID)
     for p, what in confirmed:
